@@ -91,12 +91,13 @@ func Indent(dst *bytes.Buffer, src []byte, prefix, indent string) error {
 func appendIndent(dst, src []byte, prefix, indent string) ([]byte, error) {
 	// In v2, only spaces and tabs are allowed, while v1 allowed any character.
 	dstLen := len(dst)
+	var replaceSpaces func()
 	if len(strings.Trim(prefix, " \t"))+len(strings.Trim(indent, " \t")) > 0 {
 		// Use placeholder spaces of correct length, and replace afterwards.
 		invalidPrefix, invalidIndent := prefix, indent
 		prefix = strings.Repeat(" ", len(prefix))
 		indent = strings.Repeat(" ", len(indent))
-		defer func() {
+		replaceSpaces = func() {
 			b := dst[dstLen:]
 			for i := bytes.IndexByte(b, '\n'); i >= 0; i = bytes.IndexByte(b, '\n') {
 				b = b[i+len("\n"):]
@@ -108,7 +109,7 @@ func appendIndent(dst, src []byte, prefix, indent string) ([]byte, error) {
 				}
 				b = b[n:]
 			}
-		}()
+		}
 	}
 
 	dst, err := jsontext.AppendFormat(dst, src,
@@ -121,6 +122,12 @@ func appendIndent(dst, src []byte, prefix, indent string) ([]byte, error) {
 		jsontext.WithIndent(indent))
 	if err != nil {
 		return dst[:dstLen], transformSyntacticError(err)
+	}
+
+	// Replace the placeholder spaces before appending any trailing whitespace,
+	// which must be preserved verbatim.
+	if replaceSpaces != nil {
+		replaceSpaces()
 	}
 
 	// In v2, trailing whitespace is discarded, while v1 preserved it.
